@@ -31,6 +31,7 @@ type PoolOp struct {
 	Slot int    `json:"slot,omitempty"` // fill, rel: index into the packs currently held (modulo their number)
 	Seed int    `json:"seed,omitempty"` // fill: poison id
 	B    bool   `json:"b,omitempty"`    // fill: value stored in the bool fields
+	Cut  int    `json:"cut,omitempty"`  // fault: the poisoned datagram is cut to Cut%(len-1)+1 bytes before it is decoded
 }
 
 type PoolCase struct {
@@ -68,6 +69,10 @@ func drawPool(t *rapid.T) PoolCase {
 			if pooled[ty] > 0 {
 				pooled[ty]--
 			}
+		case k >= 90:
+			// a truncated datagram arrives: ToPack acquires a pack, reads part of it and fails
+			c.Ops = append(c.Ops, PoolOp{Op: "fault", Type: rapid.SampledFrom(types).Draw(t, "t"), Ver: drawVersion(t),
+				Seed: rapid.IntRange(1, 255).Draw(t, "seed"), B: rapid.Bool().Draw(t, "b"), Cut: rapid.IntRange(0, 5000).Draw(t, "cut")})
 		case k < 67:
 			c.Ops = append(c.Ops, PoolOp{Op: "fill", Slot: rapid.IntRange(0, len(held)-1).Draw(t, "slot"),
 				Seed: rapid.IntRange(1, 255).Draw(t, "seed"), B: rapid.Bool().Draw(t, "b")})
@@ -241,7 +246,8 @@ func runPool(c PoolCase) *pbt.Result {
 	// bool non-interference, per type and field: [stored][observed]
 	follow := map[string]*[2][2]int{}
 	var held []*heldPack
-	reuses, acquires, refilledReuses := 0, 0, 0
+	reuses, acquires, refilledReuses, faults, acqAfterFault := 0, 0, 0, 0, 0
+	unknown := map[uintptr]bool{}
 	classes := map[string]bool{}
 
 	// leave the pools as they were found: take back everything this case released
@@ -273,6 +279,9 @@ func runPool(c PoolCase) *pbt.Result {
 				return pbt.Fail("op %d: CreatePack(%s, %d) returned nil", i, op.Type, op.Ver)
 			}
 			acquires++
+			if faults > 0 {
+				acqAfterFault++
+			}
 			keep = append(keep, p)
 			id := ptrOf(p)
 			_, reused := inPool[id]
@@ -328,6 +337,56 @@ func runPool(c PoolCase) *pbt.Result {
 			}
 			udp.ClosePack(h.p)
 			inPool[id] = h.d
+		case "fault":
+			d := descByName[op.Type]
+			if d == nil || !d.registered {
+				return pbt.Fail("op %d: unknown or unpooled type %q", i, op.Type)
+			}
+			if d.noToPack {
+				continue
+			}
+			// a poisoned datagram of this type, produced through an ordinary acquire / fill / release
+			src := d.mk(op.Ver)
+			keep = append(keep, src)
+			delete(inPool, ptrOf(src))
+			fillPoison(src, op.Seed, op.B, ptrs)
+			var dgram []byte
+			func() {
+				defer func() { recover() }() // poison that the writer cannot encode: no datagram, no fault
+				dgram = append([]byte(nil), udp.ToBytesPack(src)...)
+			}()
+			udp.ClosePack(src)
+			inPool[ptrOf(src)] = d
+			lastB[ptrOf(src)] = nil
+			if len(dgram) < 2 {
+				continue
+			}
+			cut := op.Cut%(len(dgram)-1) + 1
+			var got udp.UdpPack
+			var perr interface{}
+			func() {
+				defer func() { perr = recover() }()
+				got = udp.ToPack(d.code, op.Ver, dgram[:cut])
+			}()
+			if perr == nil && got != nil {
+				// decoded after all (the cut fell behind the last field this version reads): an ordinary tenure
+				keep = append(keep, got)
+				delete(inPool, ptrOf(got))
+				udp.ClosePack(got)
+				inPool[ptrOf(got)] = d
+				lastB[ptrOf(got)] = nil
+				classes["fault:decoded-anyway"] = true
+			} else {
+				// whatever the library did with the half-read pack, nobody may get its content
+				faults++
+				classes["fault:decode-failed:"+d.name] = true
+				// the pack ToPack acquired may or may not be back in the pool; forget what we knew about that pool's top
+				for id, dd := range inPool {
+					if dd == d {
+						unknown[id] = true
+					}
+				}
+			}
 		default:
 			return pbt.Fail("op %d: unknown op %q", i, op.Op)
 		}
@@ -342,10 +401,13 @@ func runPool(c PoolCase) *pbt.Result {
 	if refilledReuses > 0 {
 		cl = append(cl, "reuse-after-poison")
 	}
+	if acqAfterFault > 0 {
+		cl = append(cl, "acquire-after-failed-decode")
+	}
 	if reuses == 0 {
 		cl = append(cl, "no-reuse")
 	}
-	return &pbt.Result{NT: refilledReuses > 0, Classes: cl}
+	return &pbt.Result{NT: refilledReuses > 0 || acqAfterFault > 0, Classes: cl}
 }
 
 func b2i(b bool) int {
@@ -357,7 +419,7 @@ func b2i(b bool) int {
 
 var poolSpec = pbt.Register(pbt.Spec[PoolCase]{
 	Prop: "C07", Name: "pool",
-	Rule:  "histories of 3..40 acquire(type, version) / fill(poison in every exported field incl. maps, slices, pointers) / release over 1..3 of the 18 pooled types, run on a single P; after every acquire no field may contain poison (bool fields: value after re-acquisition must not follow the value stored before release); non-trivial = sync.Pool really handed back an object that had been poisoned and released earlier in the same history; distinct by history",
+	Rule:  "histories of 3..40 acquire(type, version) / fill(poison in every exported field incl. maps, slices, pointers) / release / failed decode (ToPack of a poisoned datagram cut at a generated offset, panic recovered) over 1..3 of the 18 pooled types, run on a single P; after every acquire no field may contain poison (bool fields: value after re-acquisition must not follow the value stored before release); non-trivial = sync.Pool really handed back an object that had been poisoned and released earlier in the same history, or an acquire followed a failed decode; distinct by history",
 	Quick: 3000, Thorough: 20000,
 	Draw: drawPool, Run: runPool,
 })
@@ -385,5 +447,13 @@ func TestPoolEveryType(t *testing.T) {
 			{Op: "acq", Type: name, Ver: 30103},
 		}}
 		poolSpec.RunCase(t, c)
+		// failed decodes at several cut points, each followed by acquires
+		for _, ver := range []int32{50100, 10110, 30103} {
+			var ops []PoolOp
+			for _, cut := range []int{0, 3, 9, 17, 40, 90, 200, 1000} {
+				ops = append(ops, PoolOp{Op: "fault", Type: name, Ver: ver, Seed: 11, B: true, Cut: cut}, PoolOp{Op: "acq", Type: name, Ver: ver}, PoolOp{Op: "acq", Type: name, Ver: ver})
+			}
+			poolSpec.RunCase(t, PoolCase{Ops: ops})
+		}
 	}
 }
